@@ -33,6 +33,7 @@ ASSUMPTIONS = ["the 5 s 'all slots busy' wait of ThreadingApplication is scaled 
                "probe expectations are absolute (2001 handshake, every request reaches the handler, answer per handler "
                "outcome), which is what a fresh node does"]
 TIMEOUT = {"quick": 900, "thorough": 3600}
+SCTP_CLONES = {"quick": ['matrix11', 'stall5', 'churn3'], "thorough": ['matrix12', 'matrix13', 'stall14', 'stall15', 'churn6', 'churn7']}
 
 SCENARIOS = ["in_handshake", "out_handshake", "request", "dwr_from_peer", "dwr_from_node", "dpr"]
 RACE_SCENARIOS = ["out_rejected_and_closed", "cer_at_timeout", "equal_ids_two_connections", "unknown_peer_then_close"]
